@@ -39,7 +39,7 @@ def run(ctx):
     ctx.assumptions += ["map iteration order excepted", "the race detector only sees the interleavings that occur", "digest = generic reflection over every field of every node"]
     q = ctx.quick()
     fams = [("c14-c08", progs.fam_c08(2)), ("c14-c09", progs.fam_c09()), ("c14-c07", progs.fam_c07()), ("c14-clo", progs.fam_closures()),
-            ("c14-rand", progs.rand_programs(ctx.seed + 31, 400 if q else 5000))]
+            ("c14-rand", progs.rand_programs(ctx.seed + 31, 400 if q else 5000)), ("c14-rand2", progs.rand2_programs(ctx.seed + 131, 300 if q else 4000))]
     if not q:
         fams.append(("c14-c04", progs.fam_c04(2)))
     for tag, fam in fams:
